@@ -295,6 +295,55 @@ func execC15Inner(c c15Case) *ev.Failure {
 			} else if typeID(err) == frugal.TRANSPORT_EXCEPTION_ALREADY_OPEN {
 				return ev.Failf("open-while-closed", "Open on a closed transport returned ALREADY_OPEN\nhistory:\n%s", s.tr8())
 			}
+		case "open2":
+			// two overlapping Open calls while the underlying connect is slow (a manual reopen racing
+			// the monitor's): exactly one may open the transport, the other must see ALREADY_OPEN
+			s.st.mu.Lock()
+			fo := s.st.failOpen
+			if fo == 0 {
+				s.st.openDelay, s.st.lenientOpen = time.Duration(5+st.N%20)*time.Millisecond, true
+			}
+			s.st.mu.Unlock()
+			if fo > 0 {
+				continue
+			}
+			errs := make([]error, 2)
+			var wg sync.WaitGroup
+			if f := s.call("Open x2", func() {
+				for i := range errs {
+					wg.Add(1)
+					go func(i int) { defer wg.Done(); errs[i] = s.tr.Open() }(i)
+				}
+				wg.Wait()
+			}); f != nil {
+				return f
+			}
+			s.st.mu.Lock()
+			s.st.openDelay, s.st.lenientOpen = 0, false
+			s.st.mu.Unlock()
+			s.logf("Open x2 -> %v, %v", errs[0], errs[1])
+			oks, already := 0, 0
+			for _, e := range errs {
+				if e == nil {
+					oks++
+				} else if typeID(e) == frugal.TRANSPORT_EXCEPTION_ALREADY_OPEN {
+					already++
+				}
+			}
+			wantOK := 1
+			if s.open {
+				wantOK = 0
+			}
+			if oks != wantOK || already != 2-wantOK {
+				return ev.Failf("concurrent-open", "two overlapping Open calls on %s transport: %d succeeded, %d reported ALREADY_OPEN (%v, %v)\nhistory:\n%s",
+					map[bool]string{true: "an open", false: "a closed"}[s.open], oks, already, errs[0], errs[1], s.tr8())
+			}
+			if !s.open {
+				s.open = true
+				if f := s.refreshClosed(); f != nil {
+					return f
+				}
+			}
 		case "isopen":
 			var v bool
 			if f := s.call("IsOpen", func() { v = s.tr.IsOpen() }); f != nil {
@@ -505,12 +554,14 @@ func genC15(t *rapid.T) c15Case {
 	if c.Monitor && rapid.IntRange(0, 2).Draw(t, "slowcallback") == 0 {
 		c.ReopenedDelayMs = rapid.IntRange(5, 30).Draw(t, "callbackms")
 	}
-	c.Steps = append(c.Steps, c15Step{Op: "open"})
+	c.Steps = append(c.Steps, c15Step{Op: rapid.SampledFrom([]string{"open", "open", "open", "open2"}).Draw(t, "first"), N: 7})
 	n := rapid.IntRange(1, 22).Draw(t, "n")
 	for i := 0; i < n; i++ {
-		op := rapid.SampledFrom([]string{"open", "open", "close", "isopen", "request", "fail", "fail", "fail", "failopens", "sleep"}).Draw(t, "op")
+		op := rapid.SampledFrom([]string{"open", "open", "open2", "close", "isopen", "request", "fail", "fail", "fail", "failopens", "sleep"}).Draw(t, "op")
 		st := c15Step{Op: op}
 		switch op {
+		case "open2":
+			st.N = rapid.IntRange(0, 19).Draw(t, "connectms")
 		case "fail":
 			st.Kind = rapid.SampledFrom([]string{"eof", "ioerr", "ioerr", "garbage", "writefail"}).Draw(t, "kind")
 			st.Where = rapid.SampledFrom([]string{"between", "inside"}).Draw(t, "where")
@@ -543,6 +594,9 @@ func classifyC15(c c15Case) ev.Class {
 	afterFail := false
 	for _, st := range c.Steps {
 		switch st.Op {
+		case "open2":
+			opens++
+			labels = append(labels, "overlapping-opens")
 		case "fail":
 			fails++
 			labels = append(labels, "fail="+st.Kind)
